@@ -151,6 +151,15 @@ pub fn apply(ctx: &mut Ctx, op: &Op) -> (String, i64) {
                 store.strip_annotation_ids();
                 Ok(0)
             }
+            "ProtectText" => {
+                let mode = match a["mode"].as_str().unwrap_or("auto") {
+                    "checksum" => TextValidationMode::Checksum,
+                    "text" => TextValidationMode::Text,
+                    "both" => TextValidationMode::Both,
+                    _ => TextValidationMode::Auto,
+                };
+                store.protect_text(mode).map(|_| 0)
+            }
             "ShrinkToFit" => {
                 store.shrink_to_fit(true);
                 Ok(0)
